@@ -26,7 +26,7 @@ CLAIMED = {
  'C06': dict(
   text='Real Memory.read/write/_new_packet_cb/_handle_chan_* and _ReadRequest/_WriteRequest through the real Crazyflie.send_packet against '
        'a byte-array device model: symbolic addresses (32 bit), lengths across every 20/25-byte chunk boundary, symbolic contents, duplicated, '
-       'late and error replies, link drop after the k-th reply, queued and superseded writes, MemoryTester; asserts exact data, untouched '
+       'late and error replies, link drop after the k-th reply, queued and superseded writes, MemoryTester, and the deck memory layer (DeckMemoryManager query / DeckMemory read / write with optional failure callbacks present or absent); asserts exact data, untouched '
        'bytes elsewhere, exactly one notification per request, write order, no lock or pending record left, follow-up requests served.',
   note='Bounds per harness in evidence (lengths <= 63/77 end-to-end quick, <= 100 thorough; step harness covers arbitrary 32-bit progress state). '
        'Context switches only at blocking calls; two OS threads inside write() are outside. Aliased writes (same id+address outstanding twice) '
@@ -93,18 +93,18 @@ CLAIMED = {
   tech=TECH, ref='DESIGN.md §3 C11'),
  'C12': dict(
   text='Bootloader._internal_flash page arithmetic with symbolic image length, page size class, buffer pages, flash pages, start page and override against a flash model that judges every write when it executes; '
-       'end-to-end through the real Cloader.upload_buffer/write_flash with every image byte symbolic and lost/refused/duplicated flash-write replies; upload_buffer tiling; write_flash retry protocol.',
-  note='Page sizes 1..4 (quick) / 1..8 and 1024 (thorough), <= 6-12 pages; refusal is asserted as no flash-write command reaching the target. zip/manifest handling, deck flashing and loss of buffer-load packets are outside.',
+       'end-to-end through the real Cloader.upload_buffer/write_flash with every image byte symbolic and lost/refused/duplicated flash-write replies; upload_buffer tiling (symbolic bytes, and all-0xFF vs pattern per 25-byte packet); write_flash retry protocol; Bootloader.start_bootloader + flash() with a release zip (with/without bootloader+softdevice update) against a two-target craft model whose nRF51 start page moves on restart.',
+  note='Page sizes 1..4 (quick) / 1..8 and 1024 (thorough), <= 6-12 pages; refusal is asserted as no flash-write command reaching the target. Manifest variants other than v1, deck flashing, warm boot and loss of buffer-load packets are outside.',
   tech=TECH, ref='DESIGN.md §3 C12'),
 
  'C02': dict(
   text='SEQUENTIALISED connection lifecycle: a real Crazyflie (platform service, log, memory, param, TOC fetchers, link statistics, SyncCrazyflie) connected to a device model through a '
-       'fake driver chosen by the real get_link_driver; every thread body is stepped as a task by one scheduler. The solver chooses the kind and position of one or two deviations from the '
+       'fake driver chosen by the real get_link_driver; every thread body is a task of one deterministic scheduler - in two engines: restart-stepped bodies, and real OS threads of which only the baton holder runs (a task keeps its stack across blocking calls). The solver chooses the kind and position of one or two deviations from the '
        'nominal schedule (link error from the driver task, link error raised inside link.send_packet while _send_lock is held, close_link, duplicated or held-back reply, ping task first) and the '
        'whole deviation space is exhausted. Asserts the callback grammar per attempt, no lock left held, no thread dead, no application call blocked for ever (incl. SyncCrazyflie.open_link/close_link), '
        'tables complete at connected, and that the same object connects again.',
   note='RESTRICTED: context switches only at blocking calls (receive, queue get, lock acquire, sleep, join); free-running OS-thread interleavings and wall-clock bounds are outside solver-based checking here. '
-       'All solver-chosen inputs are positions/kinds, so harnesses are labelled symbolic=False (exhaustive enumeration by the solver, real code under it). Tables: 1 log + 1-2 parameter entries; link without resend timers (C10).',
+       'All solver-chosen inputs are positions/kinds, so harnesses are labelled symbolic=False (exhaustive enumeration by the solver, real code under it). Tables: 1 log + 1-3 parameter entries; link without resend timers (C10).',
   tech='solver-enumerated deviation schedules over the real code (CrossHair as a library, z3 deciding feasibility of each fork); exhaustive within the stated bounds', ref='DESIGN.md §3 C02, §4'),
  'C04': dict(
   text='Param.set_value / get_value / update callbacks for every firmware type with symbolic idents, access bits, values (ints in +-2^70, every IEEE double) and device bit patterns, both protocol generations; '
